@@ -70,6 +70,7 @@ def make_directive(required=0, optional=0, faw=False, has_content=True, spec="st
 
     specs = {
         "none": {},
+        "null": None,  # docutils' default: no option_spec at all
         "std": {"k": conv_unchanged, "class": conv_tag, "flag": directives.flag, "bad": conv_raise_value, "badt": conv_raise_type},
     }
 
@@ -427,6 +428,8 @@ def families(tier, seed):
                         args=dict(n=n, alphabet=RAW, first="x"), nontrivial="partition_nontrivial"))
         F.append(Family("raw-args/N%d" % n, make_raw, "contents of %d chars over %r, directive with 1 required argument, first line 'x'" % (n, RAW),
                         args=dict(n=n, alphabet=RAW, first="x", req=1), nontrivial="partition_nontrivial"))
+        F.append(Family("raw-nullspec/N%d" % n, make_raw, "contents of %d chars over %r, directive whose option_spec is None (docutils' default)" % (n, RAW),
+                        args=dict(n=n, alphabet=RAW, first="", spec="null"), nontrivial="partition_nontrivial"))
         F.append(Family("raw-nospec/N%d" % n, make_raw, "contents of %d chars over %r, directive without option_spec" % (n, RAW),
                         args=dict(n=n, alphabet=RAW, first="", spec="none"), nontrivial="partition_nontrivial"))
     for n in ([4] if q else [4, 6]):
